@@ -241,7 +241,7 @@ def machine_fits(mp, bs, eps, H):
         H, _ = py_auto_h(mp, eps)
     if H < 0:
         return True          # the machine does not run (undefined horizon)
-    if H > HCAP:
+    if H > HCAP or len(bs) > 10:
         return False
     S = mp["PD"] * mp["OD"] * mp["GD"]
     g = F(mp["GN"], mp["GD"])
@@ -256,8 +256,8 @@ def make_case(rng, k, tier):
         GN, GD = GAMMAS[rng.randrange(len(GAMMAS))]
         rfam = RFAMS[(k + rng.randrange(2)) % len(RFAMS)]
         obs = OBSK[(k // 2 + rng.randrange(2)) % len(OBSK)]
-        PD = rng.choice([2, 2, 2, 4])
-        OD = rng.choice([2, 2, 4])
+        PD = rng.choice([2, 2, 2, 2, 4, 3])
+        OD = rng.choice([2, 2, 2, 4, 3])
         n_na = rng.choice([1, 2, 2, 3, 3])
         n_abs = rng.choice([0, 0, 1, 1, 2])
         if rfam == "const" and rng.random() < 0.7:
@@ -351,8 +351,8 @@ def make_case(rng, k, tier):
             eps, H = F(2, 1), -1                       # threshold above the reward range: automatic horizon <= 0
         else:
             eps, H = rng.choice([F(1, 10), F(1, 100), F(1, 4), F(1, 8)]), rng.choice([-1, 1, 2, 3, 4, 5, 5, 20])
-        if H < 0 and py_auto_h(mp, eps)[1]:
-            eps = eps * F(9, 10)                       # avoid the rounding-dependent exact power
+        while H < 0 and py_auto_h(mp, eps)[1]:
+            eps = eps * F(19, 20)                      # avoid the rounding-dependent exact power
         s1.append({"bs": bs, "eps": [eps.numerator, eps.denominator], "H": H})
     case["s1"] = s1
     # ---- configurations of the planner class
@@ -371,8 +371,8 @@ def make_case(rng, k, tier):
     for c in pick:
         c = dict(c)
         e = F(*c["value_convergence_epsilon"])
-        if c["horizon"] < 0 and py_auto_h(mp, e)[1]:
-            e = e * F(9, 10)
+        while c["horizon"] < 0 and py_auto_h(mp, e)[1]:
+            e = e * F(19, 20)
             c["value_convergence_epsilon"] = [e.numerator, e.denominator]
         if c not in cfgs:
             cfgs.append(c)
@@ -490,22 +490,30 @@ class Real:
             try:
                 r = self.call("point_based_value_iteration", point_based_value_iteration, self.p, bb,
                               value_convergence_epsilon=float(eps), horizon=(None if H < 0 else H))
-                rec.update(self.project_pbvi(r, bb))
+                rec.update(self.project_pbvi(r, bb, eps, H))
             except Exception as e:                           # noqa: BLE001
                 rec["error"] = (type(e).__name__, str(e)[:200])
             rec["job"] = self.add_job(job["bs"], eps, H)
             self.s1.append(rec)
 
-    def project_pbvi(self, r, bb):
-        """alpha vectors in pruned coordinates, number of assignments, chosen actions."""
+    def project_pbvi(self, r, bb, eps, H):
+        """alpha vectors in pruned coordinates, number of assignments, chosen actions.
+
+        The loop breaks BEFORE assigning, so after `its` = i the vectors went through i assignments when it
+        broke and through i + 1 when it ran to the horizon.  `iterations` alone cannot tell the two apart at
+        i = horizon - 1; there the returned vectors are compared with the last computed ones (equal also at
+        an exact fixed point, where both readings describe the same vectors: k_alt)."""
         alpha = np.asarray(r["alpha_vectors"], dtype=float)
         its = int(r["iterations"])
         bsa = np.asarray(r["belief_action_alpha_vectors"], dtype=float)
         idx = np.asarray(r["belief_action_indices"])
         newbv = bsa[np.arange(len(bb)), :, idx]
-        # the loop breaks BEFORE assigning: the returned vectors are the new ones iff it ran to the horizon
-        ran_out = bool(alpha.shape == newbv.shape and np.array_equal(alpha, newbv))
+        same = bool(alpha.shape == newbv.shape and np.array_equal(alpha, newbv))
+        h = H if H >= 0 else py_auto_h(self.mp, eps)[0]
+        last = its == h - 1
+        ran_out = last and same
         return {"alpha": [self.row_abstract(row) for row in alpha], "its": its, "k": its + 1 if ran_out else its,
+                "k_alt": its if (ran_out and same) else (its + 1 if same else None),
                 "ran_out": ran_out, "acts": [self.apos[int(i)] for i in idx]}
 
     def add_job(self, bs, eps, H):
@@ -567,11 +575,11 @@ class Real:
         except Exception as e:                               # noqa: BLE001
             rec["recon"] = f"point_based_value_iteration raised {type(e).__name__}"
             return
-        pr = self.project_pbvi(r, used)
+        pr = self.project_pbvi(r, used, eps, H)
         if not np.array_equal(np.asarray(r["alpha_vectors"]), np.asarray(res.alpha_vectors)):
             rec["recon"] = "the re-run on the reconstructed belief set does not reproduce the returned alpha vectors"
             return
-        rec.update(known=True, bs=exact_seq[j_used], k=pr["k"], its=pr["its"], ran_out=pr["ran_out"], acts=pr["acts"])
+        rec.update(known=True, bs=exact_seq[j_used], k=pr["k"], k_alt=pr["k_alt"], its=pr["its"], ran_out=pr["ran_out"], acts=pr["acts"])
         if max(sum(w) for w in exact_seq[j_used]) <= 4096:
             rec["job"] = self.add_job(exact_seq[j_used], eps, H)
         else:
@@ -684,9 +692,10 @@ class Real:
 
 
 def shape_of(m):
-    tags = [f"obs={m['obs_kind']}", f"rewards={m['rfam']}"]
-    if any(m["abs"]):
-        tags.append("ghost-absorbing" if m.get("ghost") else "absorbing")
+    """Input shape named in the signatures: coarse on purpose (one defect = few signatures)."""
+    tags = ["revealing-observations" if m["obs_kind"] in ("identity", "permuted") else "partial-observations"]
+    if any(m["abs"]) and m.get("ghost"):
+        tags.append("ghost-absorbing-states")
     return ",".join(tags)
 
 
@@ -742,7 +751,7 @@ class Judge:
                 shape = "constant-reward-automatic-horizon"
             elif name == "UnboundLocalError" and h == 0:
                 shape = "zero-backups"
-        self.fail(site, f"raised-{name}", f"{rec['site']} raised {name}: {msg} (eps={eps}, horizon={'None' if H is not None and H < 0 else H})",
+        self.fail(site, f"raised-{name}", f"{msg} [called through {rec['site']}, eps={eps}, horizon={'None' if H is not None and H < 0 else H}]",
                   extra={"kind": rec["kind"], "idx": rec.get("idx")}, shape=shape)
 
     # ------------------------------------------------------------------ PBVI jobs
@@ -767,7 +776,7 @@ class Judge:
         sc = jr["scale"]
         exp = [[F(x, sc) for x in row] for row in jr["alpha"]]
         got = rec["alpha"]
-        same = rec.get("k") == jr["k"] and len(exp) == len(got) and all(
+        same = jr["k"] in (rec.get("k"), rec.get("k_alt")) and len(exp) == len(got) and all(
             abs(got[p][s] - float(exp[p][s])) <= tol(exp[p][s]) for p in range(len(exp)) for s in range(len(exp[p])))
         if same:
             self.ctx.count("runs_explained_by_the_backup_machine")
@@ -1016,7 +1025,7 @@ def crosscheck(idx, real, recs, brec):
 
 
 # ---------------------------------------------------------------------------------------------
-def judge_cases(ctx, cases, *, tamper=None, mutate_records=None, ties="both"):
+def judge_cases(ctx, cases, *, tamper=None, mutate_records=None, mutate_batch=None, ties="both"):
     reals = []
     for c in cases:
         r = Real(ctx, c, tamper=tamper)
@@ -1025,8 +1034,24 @@ def judge_cases(ctx, cases, *, tamper=None, mutate_records=None, ties="both"):
     if not reals:
         return
     batch = [r.batch_record(ctx.tier) for r in reals]
+    if mutate_batch is not None:
+        mutate_batch(batch)
     res = run_tlc(ctx.workdir / "mc", "C08_Bounds", CFG, files={"batch.json": batch},
-                  env={"BATCH_FILE": "batch.json", "TIES": ties}, coverage=(ctx.tier == "thorough"))
+                  env={"BATCH_FILE": "batch.json", "TIES": ties})
+    # (-coverage 1 exhausts the heap on the recursive oracle operators; the per-action counts are taken from
+    #  the emitted records instead: every terminal state of every behaviour prints one)
+    ac = ctx.extra.setdefault("action_counts", {"Prep": 0, "Start": 0, "Backup": 0, "Expand": 0, "Greedy": 0})
+    for r in res.records:
+        if r["kind"] == "oracle":
+            ac["Prep"] += 1
+        elif r["kind"] == "pbvi":
+            ac["Start"] += 1
+            if r["phase"] in ("stopped", "horizon"):
+                ac["Backup"] += r["k"] + (1 if r["phase"] == "stopped" else 0)
+        elif r["kind"] == "expand":
+            ac["Expand"] += 1
+        elif r["kind"] == "greedy":
+            ac["Greedy"] += 1
     ctx.add_tlc(res, "oracle (Q*_MDP, blind policies, expectimax bracket) + point-based backup machine on every belief set "
                      "+ validation of recorded expansions and action distributions")
     bad = [v for v in res.violated if v in DESIGN_INVS]
@@ -1043,15 +1068,16 @@ def judge_cases(ctx, cases, *, tamper=None, mutate_records=None, ties="both"):
         else:
             key = (kind, r["rec"])
         per.setdefault(r["iid"], {})[key] = r
+    for i, real in enumerate(reals, start=1):
+        if not per.get(i):
+            raise TLCFailure(f"no records for case {i}")
+        if i % 4 == 1:
+            crosscheck(i, real, per[i], batch[i - 1])
+            ctx.count("oracle_and_machine_crosschecks")
     if mutate_records is not None:
         mutate_records(per)
     for i, real in enumerate(reals, start=1):
-        recs = per.get(i)
-        if not recs:
-            raise TLCFailure(f"no records for case {i}")
-        if i % 4 == 1:
-            crosscheck(i, real, recs, batch[i - 1])
-            ctx.count("oracle_and_machine_crosschecks")
+        recs = per[i]
         Judge(ctx, i, real, recs).run()
         mp = real.mp
         ctx.sample({"instance": {k: mp[k] for k in ("N", "K", "NO", "PD", "OD", "GN", "GD", "abs", "P", "R", "O", "p0")},
@@ -1130,18 +1156,38 @@ def selftest(ctx):
             flipped.append(c2)
     before = len(ctx.violations)
     judge_cases(ctx, flipped[:3], ties="first")
-    ok &= len(ctx.violations) > before
+    ok &= any("raised-" not in v[0] for v in ctx.violations[before:])
 
     def tamper2(site, out):
         if site.endswith(".action_dist"):
             from msdm.core.distributions import DictDistribution
             sup = list(out.support)
-            return DictDistribution({sup[0]: 0.75, **({sup[1]: 0.25} if len(sup) > 1 else {})}) if len(sup) > 1 else out
-        if site == "expand_beliefs" and len(out) >= 1:
-            extra = np.full((1, out.shape[1]), 1.0 / out.shape[1])
-            return out
+            if len(sup) > 1:
+                return DictDistribution({sup[0]: 0.75, sup[1]: 0.25})
         return out
     before = len(ctx.violations)
     judge_cases(ctx, cases[:6], tamper=tamper2, ties="first")
     ok &= any("not-uniform" in v[0] for v in ctx.violations[before:])
+
+    # recorded traces corrupted before TLC validates them: a maximiser dropped from one recorded action
+    # distribution, a foreign belief put into one recorded expansion
+    state = {"greedy": False, "expand": False}
+
+    def corrupt(batch):
+        for b in batch:
+            for g in b["greedy"]:
+                if not state["greedy"] and sum(g["supp"]) >= 2:
+                    i = g["supp"].index(1)
+                    g["supp"][i], g["wn"][i] = 0, 0
+                    state["greedy"] = True
+            for e in b["expands"]:
+                if not state["expand"] and len(e["to"]) > len(e["from"]) and b["N"] >= 2:
+                    foreign = [7 if s == 0 else 11 for s in range(b["N"])]
+                    if foreign not in e["to"]:
+                        e["to"] = e["to"] + [foreign]
+                        state["expand"] = True
+    before, dbefore = len(ctx.violations), len(ctx.drifts)
+    judge_cases(ctx, cases, mutate_batch=corrupt, ties="first")
+    ok &= state["greedy"] and any("not-uniform" in v[0] for v in ctx.violations[before:])
+    ok &= state["expand"] and any(d["step"] == "Expand" for d in ctx.drifts[dbefore:])
     return bool(ok)
